@@ -162,3 +162,82 @@ def contracts():
         serves=('C19',), native=False)
     cs.append(pm)
     return cs
+
+
+# ================= selector plumbing of search / searchAll ==================
+
+def setup_plumbing(world):
+    setup(world)
+    world.opaque_sig('create_child_context', alloc=True, log=True)
+    world.callee_contract(M + '_publish_match')
+
+    def finditer(recv, args, kw, it):
+        # T-re: the successive matches, an (unknown) finite sequence that is
+        # a function of the pattern and the subject
+        n = models.uf('re.nmatches', S.Val, z3.StringSort(), z3.IntSort())(
+            recv.t, S.TStr.unwrap(args[0]))
+        it.path.assume(n >= 0)
+        if S.FIXED_SEQ_LEN[0] is not None:
+            n = z3.IntVal(S.FIXED_SEQ_LEN[0])   # refutation mode
+        arr = models.uf('re.matches', S.Val, z3.StringSort(), z3.ArraySort(
+            z3.IntSort(), S.Val))(recv.t, S.TStr.unwrap(args[0]))
+        world.trusted_used.add('re pattern.finditer() (T-re)')
+        return SSeq(n, arr, TVal, kind='tuple')
+    world.opaque_sigs['finditer'] = finditer
+
+
+def plumbing_contracts():
+    """Every match is handed to the selector in a context OF ITS OWN: the
+    k-th result is the selector applied to the k-th freshly allocated child
+    of the caller's context (lazily built results of different matches must
+    not see each other's $1..$n)."""
+    cs = []
+    CHILD = 'ufn("m.create_child_context#", context, %s)'
+    MS = 'regexp.finditer(string)'
+    cs.append(Contract(
+        M + 'search_all', name='regex.search_all/selector',
+        params=dict(context=TVal, regexp=TVal, string=TStr,
+                    selector=TFunc(1)),
+        ensures=['len(out) == len(%s)' % MS,
+                 'forall(range(0, len(out)), lambda k: out[k] == selector('
+                 '%s))' % (CHILD % 'k')],
+        loops=[dict(anchor='for res in regexp.finditer(string)', index='n',
+                    invariant=[
+                        'len(out) == n',
+                        'ncalls("m.create_child_context") == n',
+                        'forall(range(0, n), lambda k: out[k] == selector('
+                        '%s))' % (CHILD % 'k')])],
+        serves=('C19', 'C04'), native=False))
+    cs.append(Contract(
+        M + 'search_all', name='regex.search_all/plain',
+        params=dict(context=TVal, regexp=TVal, string=TStr, selector=None),
+        ensures=['len(out) == len(%s)' % MS,
+                 'forall(range(0, len(out)), lambda k: out[k] == '
+                 '%s[k].group())' % MS],
+        loops=[dict(anchor='for res in regexp.finditer(string)', index='n',
+                    invariant=[
+                        'len(out) == n',
+                        'forall(range(0, n), lambda k: out[k] == '
+                        '%s[k].group())' % MS])],
+        serves=('C19',), native=False))
+    PM = '[e for e in calls if e[0] == "contract:regex._publish_match"]'
+    cs.append(Contract(
+        M + 'search', name='regex.search/selector',
+        params=dict(context=TVal, regexp=TVal, string=TStr,
+                    selector=TFunc(1)),
+        ensures=[
+            'implies(regexp.search(string) is None, result is None)',
+            # a match: published into a fresh child, the selector sees it
+            'implies(regexp.search(string) is not None, len(%s) == 1 and '
+            '%s[0][1][0] == %s and %s[0][1][1] == regexp.search(string) and '
+            'result == selector(%s))' % (PM, PM, CHILD % '0', PM,
+                                          CHILD % '0')],
+        serves=('C19', 'C04'), native=False))
+    cs.append(Contract(
+        M + 'search', name='regex.search/plain',
+        params=dict(context=TVal, regexp=TVal, string=TStr, selector=None),
+        ensures=['implies(regexp.search(string) is None, result is None)',
+                 'implies(regexp.search(string) is not None, result == '
+                 'regexp.search(string).group())'],
+        serves=('C19',), native=False))
+    return cs
